@@ -5,6 +5,7 @@ pub mod alloc_guard;
 pub mod engine;
 pub mod gens;
 pub mod lab_mem;
+pub mod lab_sock;
 pub mod props;
 pub mod reference;
 
